@@ -1397,6 +1397,7 @@ type cxG struct {
 	panics int64
 	big    bool // measure the allocation of every single call (inputs of several KiB)
 	worst  uint64
+	worstN string
 }
 
 func (g *cxG) run(name string, repro func() string, f func()) {
@@ -1409,7 +1410,7 @@ func (g *cxG) run(name string, repro func() string, f func()) {
 		if g.big {
 			d := cxTotalAlloc() - a0
 			if d > g.worst {
-				g.worst = d
+				g.worst, g.worstN = d, name
 			}
 			if d > cxAllocLimit {
 				g.c.Fail("C18.alloc."+name, repro(), "one call allocated %d bytes", d)
@@ -2197,7 +2198,7 @@ func propC18(c *Ctx) {
 	t2 := time.Now()
 	// 3. hand-picked cases
 	cxSpecific(c, g)
-	c.Note("guarded calls: %d, panics: %d; largest allocation of one call on an input of up to 100 KiB: %d bytes", g.calls, g.panics, g.worst)
+	c.Note("guarded calls: %d, panics: %d; largest allocation of one guarded call on an input of up to 100 KiB: %d bytes (%s)", g.calls, g.panics, g.worst, g.worstN)
 	c.Note("seconds: random/structured %.1f, limit contract %.1f, specific %.1f", t1.Sub(t0).Seconds(), t2.Sub(t1).Seconds(), time.Since(t2).Seconds())
 	if c.Thorough {
 		cxNativeFuzz(c)
